@@ -8,6 +8,8 @@ def build(tier, seed):
     from pfv.torchlib import import_pfhedge
     import_pfhedge()
     obs = training.c14_obligations(seed, tier)
+    from contracts import hedging
+    obs += [hedging.hedge_param_history_ob(False), hedging.hedge_param_history_ob(True)]
     return {'obligations': obs, 'functions': training.FUNCTIONS,
             'assumptions': [
                 'ASSUMED autograd contract (A3): backward() of a recorded graph of differentiable primitives computes the derivative of the function the graph denotes, at points where each primitive is differentiable; numerical agreement with finite differences is then a consequence and is not seen by the solver',
